@@ -90,34 +90,30 @@ def do_run(names, tier, props):
         if not meta.get("kept", True):
             continue
         plist = props or [meta["property"]]
-        rc, o = sh(["git", "-C", "/repo", "status", "--porcelain", "--untracked-files=no"])
-        if o.strip():
-            print("refusing: /repo has local modifications")
-            return
-        rc, o = sh(["git", "-C", "/repo", "apply", os.path.join(d, "patch.diff")])
-        if rc != 0:
-            print(name, "patch does not apply:", o[:200])
-            continue
+        wt = "/tmp/lqmut_%s_%d" % (name, os.getpid())
+        sh(["git", "-C", "/repo", "worktree", "add", "-q", "--detach", wt, "HEAD"])
         try:
+            rc, o = sh(["git", "apply", os.path.join(d, "patch.diff")], cwd=wt)
+            if rc != 0:
+                print(name, "patch does not apply:", o[:200])
+                continue
             for p in plist:
-                env = dict(os.environ, LQV_NO_EVIDENCE="1")
+                env = dict(os.environ, LQV_REPO=wt, LQV_EVIDENCE_DIR=wt + "/_ev", LQV_REPLAY_DIR=wt + "/_replay")
                 rc, o = sh([os.path.join(HERE, "check"), p, "--tier", tier], cwd=HERE, env=env, timeout=7200)
                 lines = [l for l in o.splitlines() if l.startswith(("VIOLATION", "  sig=", "INCONCLUSIVE")) or " tier=" in l]
                 verdict = {0: "MISSED", 1: "caught", 2: "inconclusive"}.get(rc, "rc%d" % rc)
-                res.setdefault(name, {})[p] = {"verdict": verdict, "lines": lines[:8]}
-                print("%-10s %s %s: %s" % (name, p, tier, verdict))
-                for l in lines[:6]:
-                    print("      " + l[:260])
+                res.setdefault(name, {})[p] = {"verdict": verdict, "lines": [l[:300] for l in lines[:8]]}
+                print("%-10s %s %s: %s" % (name, p, tier, verdict), flush=True)
+                for l in lines[:4]:
+                    print("      " + l[:260], flush=True)
         finally:
-            sh(["git", "-C", "/repo", "checkout", "--", "."])
+            sh(["git", "-C", "/repo", "worktree", "remove", "--force", wt])
         r = {}
         rp = os.path.join(d, "result.json")
         if os.path.exists(rp):
             r = json.load(open(rp))
         r.update({"%s/%s" % (p, tier): v for p, v in res.get(name, {}).items()})
         json.dump(r, open(rp, "w"), indent=1)
-    # restore evidence files written against the mutated tree
-    sh("git checkout -- evidence", cwd=HERE)
 
 
 def main():
